@@ -491,7 +491,8 @@ def m_conditions(tier):
             cs.append(make_cond(
                 nm, sc, run_verify, judge_verify, fx, timeout=300, group='M-nest',
                 twin=(fx.get('a_kind', 1) == 1 and fx.get('ea_present', True)
-                      and fx.get('c_kind', 1) == 1 and fx.get('ec_present', True)),
+                      and fx.get('c_kind', 1) == 1 and fx.get('ec_present', True)
+                      and fx.get('ea_tag', 0) < 3 and fx.get('ec_tag', 0) < 3),
                 descr='real assert_directory_verifies on the S-nest model vs set-based '
                       'oracle', bounds=bnd + f'tags(a) in {at}, tags(c) in {ct}'
                        + (f'; fixed consistent: {sorted(consts)}' if consts else '')))
